@@ -159,6 +159,7 @@ def _worker(args):
     prop = load_prop(pid)
     enum, n_seeded = plan(prop, pid, tier, seed)
     jobs = (job_at(pid, seed, enum, i) for i in range(wid, len(enum) + n_seeded, nw))
+    fault_probes = getattr(prop, "FAULT_PROBES", {})
     res = {
         "runs": 0, "must_runs": 0, "skipped": 0, "cover": set(), "faults": {}, "probes": {},
         "obs": {}, "violations": [], "harness": [], "sim_s": 0.0, "digest": hashlib.blake2b(digest_size=16),
@@ -182,6 +183,9 @@ def _worker(args):
             res["faults"][k] = res["faults"].get(k, 0) + v
         for k, v in ctx.probes.items():
             res["probes"][k] = res["probes"].get(k, 0) + v
+            fk = fault_probes.get(k)
+            if fk is not None:      # a probe that marks an injected disturbance also counts as a fired fault
+                res["faults"][fk] = res["faults"].get(fk, 0) + v
         for k, v in ctx.obs.items():
             res["obs"][k] = res["obs"].get(k, 0) + v
         res["sim_s"] += ctx.sim_elapsed_s()
